@@ -125,4 +125,60 @@ theorem group_lines (g : Group) (hne : g.entries ≠ []) (hn : '\n' ∉ g.name) 
   · rw [if_neg hdesc, if_neg hdesc, List.nil_append, section_lines _ h]
     simp
 
+theorem lineLens_snoc_exists (col : Nat) (a : Str) : ∃ ls last, lineLens col a = ls ++ [last] := by
+  have h := lineLens_ne_nil col a
+  exact ⟨(lineLens col a).dropLast, (lineLens col a).getLast h, (List.dropLast_concat_getLast h).symm⟩
+
+/-- a paragraph, an empty line, and what follows -/
+theorem lineLens_append_nlnl (col : Nat) (a b : Str) :
+    lineLens col (a ++ "\n\n".toList ++ b) = lineLens col a ++ [0] ++ lineLens 0 b := by
+  obtain ⟨ls, last, h⟩ := lineLens_snoc_exists col a
+  have : "\n\n".toList = ['\n', '\n'] := rfl
+  rw [List.append_assoc, lineLens_append_of_snoc col a _ ls last h, h, this]
+  simp [lineLens]
+
+/-- the lines a group contributes (nothing for a group without entries) -/
+def groupLinesOf (g : Group) : List Nat :=
+  if g.entries = [] then []
+  else [0, g.name.length + 1] ++ (if g.description ≠ [] then [0, g.description.length, 0] else []) ++
+    (g.entries.flatMap entryCores).map (·.1)
+
+/-- what `group_lines` needs of a group -/
+def GroupOk (g : Group) : Prop :=
+  g.entries ≠ [] → '\n' ∉ g.name ∧ '\n' ∉ g.description ∧ ∀ e ∈ g.entries, '\n' ∉ entryLeft e ∧ '\n' ∉ entryText e
+
+theorem group_lines' (g : Group) (h : GroupOk g) : lineLens 0 (groupUsage g) = groupLinesOf g ++ [0] := by
+  unfold groupLinesOf
+  by_cases hne : g.entries = []
+  · rw [if_pos hne]
+    unfold groupUsage
+    rw [if_pos hne]
+    simp [lineLens]
+  · rw [if_neg hne]
+    obtain ⟨hn, hd, he⟩ := h hne
+    exact group_lines g hne hn hd he
+
+theorem groups_lines (gs : List Group) (h : ∀ g ∈ gs, GroupOk g) :
+    lineLens 0 ((gs.map groupUsage).flatten) = gs.flatMap groupLinesOf ++ [0] := by
+  induction gs with
+  | nil => simp [lineLens]
+  | cons g gs ih =>
+    simp only [List.map_cons, List.flatten_cons, List.flatMap_cons]
+    rw [lineLens_append_of_snoc 0 (groupUsage g) _ _ 0 (group_lines' g (h g (by simp))),
+      ih (fun x hx => h x (by simp [hx]))]
+    simp
+
+/-- **the lines of the complete usage text**: the synopsis paragraph, an empty line, the about text as it is and an
+empty line, then the groups -/
+theorem usage_lines (d : UDecl) (t o m l : List Entry) (h : ∀ g ∈ d.groups, GroupOk g) :
+    lineLens 0 (usage d t o m l) =
+      lineLens 0 (synopsisPara d t o m l) ++ [0] ++
+        (if d.about ≠ [] then lineLens 0 d.about ++ [0] else []) ++ d.groups.flatMap groupLinesOf ++ [0] := by
+  rw [usage_eq]
+  by_cases ha : d.about ≠ []
+  · rw [if_pos ha, if_pos ha, List.append_assoc, lineLens_append_nlnl, lineLens_append_nlnl, groups_lines _ h]
+    simp
+  · rw [if_neg ha, if_neg ha, List.append_nil, List.append_nil, lineLens_append_nlnl, groups_lines _ h]
+    simp
+
 end NitroVerif.Usage
